@@ -65,6 +65,30 @@ class NumArr:
         conv = int if want == "int" else float if want == "float" else (lambda v: v)
         return NumArr([x.astype(t) if isinstance(x, NumArr) else conv(x) for x in self.data])
 
+    def reshape(self, *shape, order="C"):
+        if len(shape) == 1 and not isinstance(shape[0], int):
+            shape = tuple(shape[0])
+        if shape and isinstance(shape[-1], str):
+            order, shape = shape[-1], shape[:-1]
+            if len(shape) == 1 and not isinstance(shape[0], int):
+                shape = tuple(shape[0])
+        f = self.ravel().data if order in ("C", "c") or self.ndim == 1 else [r.data[j] for j in range(len(self.data[0])) for r in self.data]
+        if len(shape) == 1:
+            n = len(f) if shape[0] == -1 else shape[0]
+            if n != len(f):
+                raise ValueError("cannot reshape array of size %d into shape %r" % (len(f), shape))
+            return NumArr(list(f))
+        r, c = shape
+        if r == -1:
+            r = len(f) // c
+        if c == -1:
+            c = len(f) // r
+        if r * c != len(f):
+            raise ValueError("cannot reshape array of size %d into shape %r" % (len(f), shape))
+        if order in ("F", "f"):
+            return NumArr([[f[i + j * r] for j in range(c)] for i in range(r)])
+        return NumArr([[f[i * c + j] for j in range(c)] for i in range(r)])
+
     def ravel(self):
         if self.ndim == 2:
             return NumArr([y for x in self.data for y in x.data])
@@ -254,7 +278,13 @@ def dot(a, b):
 
 def num_summaries():
     def arr(x, *a, **k):
-        return x.copy() if isinstance(x, NumArr) else NumArr(list(x)) if _is_seq(x) else x
+        out = x.copy() if isinstance(x, NumArr) else NumArr(list(x)) if _is_seq(x) else x
+        dt = k.get("dtype", a[0] if a else None)
+        if dt is not None and isinstance(out, NumArr):
+            name = dt if isinstance(dt, str) else getattr(dt, "__name__", str(dt))
+            if "int" in name or "float" in name:
+                out = out.astype(name)
+        return out
 
     def searchsorted(a, v, side="left"):
         data = list(a)
@@ -299,6 +329,11 @@ def num_summaries():
         "np.full": lambda n, v, *a, **k: NumArr([v] * n) if isinstance(n, int) else (NumArr([v] * n[0]) if len(n) == 1 else NumArr([[v] * n[1] for _ in range(n[0])])),
         "np.empty": lambda n, *a, **k: NumArr([0] * n) if isinstance(n, int) else NumArr([[0] * n[1] for _ in range(n[0])]),
         "np.inf": float("inf"), "np.dot": dot, "np.matmul": dot,
+        "np.reshape": lambda a, shape, order="C": (a if isinstance(a, NumArr) else NumArr(a)).reshape(shape, order=order),
+        "np.ravel": lambda a, *x, **k: (a if isinstance(a, NumArr) else NumArr(a)).flatten(),
+        "np.column_stack": lambda t: NumArr([list(c) for c in t]).T, "np.vstack": lambda t: NumArr([list(r) for r in t]),
+        "np.stack": lambda t, axis=0: NumArr([list(r) for r in t]) if axis == 0 else NumArr([list(c) for c in t]).T,
+        "np.transpose": lambda a: (a if isinstance(a, NumArr) else NumArr(a)).T,
         "np.sum": lambda a, axis=None: (a if isinstance(a, NumArr) else NumArr(a)).sum(axis), "np.abs": lambda a: abs(a), "np.absolute": lambda a: abs(a),
         "np.min": lambda a: NumArr(a).min() if _is_seq(a) else a, "np.max": lambda a: NumArr(a).max() if _is_seq(a) else a,
         "np.amin": lambda a: NumArr(a).min(), "np.amax": lambda a: NumArr(a).max(),
